@@ -403,6 +403,14 @@ func (r *rw) node(root ast.Node) ast.Node {
 		return true
 	}, func(c *astutil.Cursor) bool {
 		switch n := c.Node().(type) {
+		case *ast.ForStmt:
+			// a loop without init/post (busy wait, retry loop) yields once per iteration
+			if n.Init == nil && n.Post == nil && n.Body != nil {
+				y := &ast.ExprStmt{X: call("Yield", &ast.BasicLit{Kind: token.STRING, Value: `"loop"`})}
+				n.Body.List = append([]ast.Stmt{y}, n.Body.List...)
+				r.stats["LoopYield"]++
+				r.changed = true
+			}
 		case *ast.BlockStmt:
 			n.List = r.insertAtomicYields(n.List)
 		case *ast.CaseClause:
